@@ -984,6 +984,25 @@ def r03_23(run, model):
     run.floor("literal forms with a fixed type in build_expr", len(fixed), 15)
 
 
+def r03_24(run, model):
+    run.rule("R03.24", "checking mode ends in an equation: check_expr relates the type of what it checked - after the dyn coercion - to the "
+                       "expected type on every path; the coercion passes an existing trait object through without comparing traits, so "
+                       "this constraint is the only thing that keeps `dyn Shape` out of a `dyn Label` position")
+    f = model.fn("check_expr", CHECK, impl="Typer")
+    co = [c for c in S.walk(f.body) if c["k"] == "MethodCall" and c["method"] == "coerce_to_expected_dyn"]
+    if not co:
+        raise AnalysisIncomplete("check_expr: the dyn coercion was not found")
+    pos = max((c["sp"][2], c["sp"][3]) for c in co)
+    par = S.Parents(f.body)
+    pcs = [c for c in S.walk(f.body) if c["k"] == "MethodCall" and c["method"] == "push_constraint" and (c["sp"][0], c["sp"][1]) > pos and
+           "expected" in S.idents(c)]
+    un = [c for c in pcs if not [a for a in par.ancestors(c) if a["k"] in ("If", "Match", "While", "For", "Closure")]]
+    run.ob("R03.24", "check_expr|the checked expression's type is equated with the expected type unconditionally", bool(un), site(CHECK, (pcs or co)[0]["sp"]),
+           f"constraints on `expected` after the coercion: {len(pcs)}, unconditional: {len(un)}",
+           witness="let l: dyn Label = s; with s: dyn Shape is accepted; the binder has another type than its value and the Go reads "
+                   "`var l dyn__Shape = s; l.vtable.label(..)`")
+
+
 def r03_21(run, model):
     run.rule("R03.21", "an unknown field is an error in every pipeline: the function that gives a struct field access its type answers from "
                        "the struct's declared fields only - no field name is special-cased (a name the editor inserts for completion is an "
@@ -1041,6 +1060,7 @@ def run(run, model):
     run.try_rule(r03_21, model)
     run.try_rule(r03_22, model)
     run.try_rule(r03_23, model)
+    run.try_rule(r03_24, model)
     # a trait call accepted without finding the implementation it runs leaves an ill-typed call in every dump (shared with C17 R17.3 / R17.4)
     from rules import c17 as _c17
     run.try_rule(_c17.r17_3, model)
